@@ -501,6 +501,7 @@ func (d decoder) name(s *cryptobyte.String) (string, error) {
 
 func (d decoder) nameLabels(s *cryptobyte.String) ([]string, error) {
 	var labels []string
+	var size int
 	// A compression pointer must point to a prior occurrence of a name.
 	// Each pointer must point before the place where the sequence of
 	// labels that contains it started. This guarantees that decoding
@@ -529,6 +530,12 @@ func (d decoder) nameLabels(s *cryptobyte.String) ([]string, error) {
 		}
 		if len(name) == 0 {
 			break
+		}
+		// Labels are at most 63 octets long (the two high bits of the length
+		// octet are reserved), names at most 255 octets, root label
+		// included. RFC 1035, Section 2.3.4
+		if size += 1 + len(name); len(name) > 63 || size > 254 {
+			return nil, ErrDecodeError
 		}
 		label := string(name)
 		if strings.ContainsAny(label, `.\`) {
